@@ -234,7 +234,7 @@ func checkC18(c *Ctx, r *Report) {
 				a := nv.Common().Args
 				startOK := derivesFrom(a[1], func(v ssa.Value) bool {
 					e := isResultOfCall(v, 0, "(*"+wtPkg+".certConfig).End")
-					return e != nil && isLoadOfField(cmT + ".nextConfig")(strip2(callArgs(e)[0]))
+					return e != nil && isLoadOfField(cmT+".nextConfig")(strip2(callArgs(e)[0]))
 				}, "(time.Time).Add")
 				add := isResultOfCall(a[1], 0, "(time.Time).Add")
 				if add != nil {
@@ -282,7 +282,7 @@ func checkC18(c *Ctx, r *Report) {
 		for _, fld := range fields {
 			n := 0
 			allInstrs(f, func(in ssa.Instruction) {
-				if v, ok := in.(ssa.Value); ok && isLoadOfField(cmT + "." + fld)(v) {
+				if v, ok := in.(ssa.Value); ok && isLoadOfField(cmT+"."+fld)(v) {
 					// the loaded config's sha256 is used
 					n++
 				}
@@ -305,7 +305,7 @@ func checkC18(c *Ctx, r *Report) {
 	if f := r2.need("(*" + cmT + ").GetConfig"); f != nil {
 		for _, ret := range returnsOf(f) {
 			fl, base := loadOfField(retVal(ret, 0))
-			r2.Check(fl != nil && fl.Name() == "tlsConf" && isLoadOfField(cmT + ".currentConfig")(strip2(base)), "GetConfig: serves currentConfig", instrPos(ret), 1, "", "the listener serves a certificate other than the current one", "")
+			r2.Check(fl != nil && fl.Name() == "tlsConf" && isLoadOfField(cmT+".currentConfig")(strip2(base)), "GetConfig: serves currentConfig", instrPos(ret), 1, "", "the listener serves a certificate other than the current one", "")
 		}
 	}
 	if f := r2.need("(*" + cmT + ").background"); f != nil {
@@ -317,7 +317,7 @@ func checkC18(c *Ctx, r *Report) {
 				d := callArgs(call)[1]
 				ok := derivesFrom(d, func(v ssa.Value) bool {
 					e := isResultOfCall(v, 0, "(*"+wtPkg+".certConfig).End")
-					return e != nil && isLoadOfField(cmT + ".currentConfig")(strip2(callArgs(e)[0]))
+					return e != nil && isLoadOfField(cmT+".currentConfig")(strip2(callArgs(e)[0]))
 				}, "(time.Time).Add", "(time.Time).Sub")
 				okSkew := derivesFrom(d, func(v ssa.Value) bool {
 					a := isResultOfCall(v, 0, "(time.Time).Add")
@@ -359,8 +359,8 @@ func checkC18(c *Ctx, r *Report) {
 		Guarded:  []string{"lastConfig", "currentConfig", "nextConfig", "addrComp", "serializedCertHashes"},
 		Requires: []string{rollK, "(*" + cmT + ").cacheSerializedCertHashes", "(*" + cmT + ").cacheAddrComponent"},
 		Exempt: map[string]string{
-			wtPkg + ".newCertManager": "constructor: the manager is not shared before it returns (init and the first timer computation run here)",
-			initK:                     "called only from newCertManager on the fresh object",
+			wtPkg + ".newCertManager":   "constructor: the manager is not shared before it returns (init and the first timer computation run here)",
+			initK:                       "called only from newCertManager on the fresh object",
 			"(*" + cmT + ").background": "the part outside the goroutine runs from newCertManager on the fresh object; the goroutine's roll is checked below",
 		},
 	})
